@@ -20,10 +20,11 @@ func zznewTestConfig() *Config {
 		ca := &x509.Certificate{Subject: pkix.Name{CommonName: "ca"}, IsCA: true, Raw: []byte("CA-DER")}
 		caKey := &rsa.PrivateKey{}
 		vf.CAKey(ca, caKey)
-		roots := x509.NewCertPool()
-		roots.AddCert(ca)
-		return &Config{ca: ca, capriv: caKey, priv: &rsa.PrivateKey{}, keyID: []byte("kid"), validity: time.Hour, org: "Martian Proxy",
-			certs: make(map[string]*tls.Certificate), roots: roots}
+		c, err := NewConfig(ca, caKey)
+		if err != nil {
+			panic(err)
+		}
+		return c
 	}
 	ca, priv, err := NewAuthority("verif ca", "verif", time.Hour)
 	if err != nil {
@@ -125,10 +126,18 @@ func VerifC06NoName() {
 // passing in between (up to and beyond the validity window).
 func VerifC06Cache() {
 	c := zznewTestConfig()
-	h1 := zzhostCase{"a.example:443", "a.example", false}
+	// one configuration serves DNS names and IP literals in any sequence
+	dns, ip := zzhostCase{"a.example:443", "a.example", false}, zzhostCase{"10.0.0.1:443", "10.0.0.1", true}
+	h1, other := dns, ip
+	if vf.Choice("first-is-ip-literal", 2) == 1 {
+		h1, other = ip, dns
+	}
 	h2 := h1
-	if vf.Choice("second-name-differs", 2) == 1 {
+	switch vf.Choice("second-name-differs", 3) {
+	case 1:
 		h2 = zzhostCase{"b.example:443", "b.example", false}
+	case 2:
+		h2 = other
 	}
 	vf.WatchOn()
 	t1, err1 := c.TLSForHost(h1.requested).GetCertificate(&tls.ClientHelloInfo{})
@@ -171,7 +180,11 @@ func VerifC06Cache() {
 	}
 	// cache invariant: the entry under key k was issued for k
 	for k, v := range c.certs {
-		vf.Assert(v.Leaf != nil && len(v.Leaf.DNSNames) == 1 && v.Leaf.DNSNames[0] == k, "cache:entry-under-k-was-issued-for-k")
+		if kip := net.ParseIP(k); kip != nil {
+			vf.Assert(v.Leaf != nil && len(v.Leaf.IPAddresses) == 1 && v.Leaf.IPAddresses[0].Equal(kip) && len(v.Leaf.DNSNames) == 0, "cache:entry-under-k-was-issued-for-k")
+		} else {
+			vf.Assert(v.Leaf != nil && len(v.Leaf.DNSNames) == 1 && v.Leaf.DNSNames[0] == k && len(v.Leaf.IPAddresses) == 0, "cache:entry-under-k-was-issued-for-k")
+		}
 	}
 	vf.Reach("done")
 }
